@@ -200,13 +200,22 @@ public:
       // the order of first appearance, which an override changes by design)
       if (want_override)
       {
+         // candidates in random order: scalars and the tuple (a complete new
+         // set of values replaces the one from the source)
+         std::vector< size_t>  cand;
          for (size_t k = 0; k < built.args.size(); ++k)
          {
             const ArgInfo&  a = built.args[ k];
-            if (!a.once || (a.kind != recipes::kInt && a.kind != recipes::kStr && a.kind != recipes::kDouble)) continue;
+            if (!a.once || a.in_subgroup) continue;
+            if (a.kind != recipes::kInt && a.kind != recipes::kStr && a.kind != recipes::kDouble && a.kind != recipes::kTuple) continue;
             bool  used = false;
             for (auto const& m : made) if (m.first == k) used = true;
-            if (used) continue;
+            if (!used) cand.push_back( k);
+         }
+         for (size_t c = cand.size(); c > 1; --c) std::swap( cand[ c - 1], cand[ wl.below( c)]);
+         for (size_t k : cand)
+         {
+            const ArgInfo&  a = built.args[ k];
             const bool  via_file = plan.gets( "file_via") != "none" && (plan.gets( "env_via") == "none" || wl.chance( 1, 2));
             if (!via_file && plan.gets( "env_via") == "none") break;
             Json  ov = Json::object();
